@@ -502,11 +502,18 @@ class Aspire:
                     saved_config = True
                     if defaults is not None:
                         defaults["saved_config"] = True
-                if (
-                    self.flow is not None
-                    and not saved_flow
-                    and "flow" not in h5_file
-                ):
+                if self.flow is not None and not saved_flow:
+                    # The flow in the file must be the one this run samples
+                    # from: replace an existing one
+                    if "flow" in h5_file:
+                        del h5_file["flow"]
+                        if (
+                            "resume_from" not in kwargs
+                            and "checkpoint" in h5_file
+                        ):
+                            # An older checkpoint was weighted under the
+                            # flow that was just replaced
+                            del h5_file["checkpoint"]
                     self.save_flow(h5_file)
                     saved_flow = True
                     if defaults is not None:
